@@ -70,7 +70,8 @@ def unitsFrom : Nat → List VarSpec → List GoUnit
 
 def unitsOf (vars : List VarSpec) : List GoUnit := unitsFrom 0 vars
 
-def GoUnit.labels (u : GoUnit) : List String := u.label.toList
+/-- a function literal logs nothing when it is evaluated (`Init.funcLit`) -/
+def GoUnit.labels (u : GoUnit) : List String := u.label.toList.filter (· != "")
 
 /-- "A reference to a variable or function is an identifier denoting it. A reference to a method m
     is a method value or method expression of the form t.m … A variable, function, or method x
